@@ -318,6 +318,9 @@ def chunkDone (c : Core) (pm : Parms) (chunk : Bytes) (buf : Bytes) : Res :=
   let c := { c with parms := updParms c.parms pm, body := c.body ++ chunk }
   if closedCond c buf then finishBody c buf else .cont { c with gen := .chunkSize } buf
 
+/-- `self.parms = None` / `self.trails = None` at the start of `parseMessage` (repaired tree) -/
+def resetOf {α : Type} (flag : Bool) (old : Option α) : Option α := if flag then none else old
+
 /-- `Requestant`: `(1, 0)` for `HTTP/1.0…`, else `(1, 1)` -/
 def reqVersion (v : Bytes) : Option (Nat × Nat) :=
   if startsWith sHTTP10 v then some (1, 0) else some (1, 1)
@@ -339,8 +342,8 @@ def stepOn (c : Core) (buf : Bytes) : Res :=
   | .unmodelled => .stop c buf
   | .fresh =>
     .cont { c with ended := some false, closed := false, errored := false,
-                   parms := if c.resetPT then none else c.parms,
-                   trails := if c.resetPT then none else c.trails, gen := .waitStart } buf
+                   parms := resetOf c.resetPT c.parms,
+                   trails := resetOf c.resetPT c.trails, gen := .waitStart } buf
   | .waitStart =>
     if ¬ c.started ∧ buf = [] then .stop c buf
     else .cont { c with started := true, headers := some [], gen := .startLine } buf
